@@ -397,12 +397,18 @@ impl Interpreter {
                 let a = state.stack.pop_bigint()?;
                 let b = state.stack.pop_number()?;
 
+                if b < 0 {
+                    return Err(InterpreterError::InvalidStackOperation("OP_LSHIFT by a negative amount"));
+                }
                 state.stack.push_bigint(a << b)?;
             }
             OpCodes::OP_RSHIFT => {
                 let a = state.stack.pop_bigint()?;
                 let b = state.stack.pop_number()?;
 
+                if b < 0 {
+                    return Err(InterpreterError::InvalidStackOperation("OP_RSHIFT by a negative amount"));
+                }
                 state.stack.push_bigint(a >> b)?;
             }
             OpCodes::OP_BOOLAND => {
